@@ -65,6 +65,13 @@ Theorem c10_preselect : forall s b, SelInv s ->
 Proof. exact append_sel. Qed.
 Print Assumptions c10_preselect.
 
+(** in particular, below the watermark a result update adds nothing: an item the user deselected is
+    not selected again by re-filtering while the list stays shorter than the longest one seen *)
+Theorem c10_below_watermark : forall s b, presel_applies s b = false ->
+  selected (append_sorted_items s b) = selected s.
+Proof. exact below_watermark. Qed.
+Print Assumptions c10_below_watermark.
+
 (** whether a selector is configured never changes *)
 Theorem c10_selector_fixed : forall ops s s', run_ops s ops = Some s' -> selmod s' = selmod s.
 Proof. exact run_selmod. Qed.
